@@ -106,11 +106,12 @@ class PropertyRun:
                 info["sha256"] = ex.sha.get(c.qn)
                 # canary: one unprovable goal per function; must NOT be discharged
                 can = []
-                seen_pc = set()
-                for o in ex.obligations:
-                    key = id(o.assumptions)
-                    if o.kind in ("ensures", "raises", "post") and len(can) < 3:
-                        can.append(Obligation("%s/%s/canary:false" % (self.pid, ex.cur_fn), "canary", "false", o.assumptions, z3.BoolVal(False), ex.cur_fn))
+                # up to four exit points spread over the paths of the function (the first three alone all belong to the first path)
+                exits = [o for o in ex.obligations if o.kind in ("ensures", "raises", "post")]
+                picks = sorted({int(round(k * (len(exits) - 1) / 3.0)) for k in range(4)}) if exits else []
+                for ix in picks:
+                    o = exits[ix]
+                    can.append(Obligation("%s/%s/canary:false" % (self.pid, ex.cur_fn), "canary", "false", o.assumptions, z3.BoolVal(False), ex.cur_fn))
                 obls = []
                 for o in ex.obligations:
                     lab, ps = clause_props(o.label)
